@@ -205,15 +205,15 @@ fn dedent_probe(case: &Value) -> Value {
     }
 }
 
-/// Layer 2 tie (coq/Serde/JsonTextCheck.v): the JSON text that `SerializationFormat::Json.to_string` writes for a value,
-/// what `SerializationFormat::Json.from_str` (dedent + serde_json::from_str) and `SerializationFormat::Json.open`
-/// (serde_json::from_reader on the saved file) read from it through `deserialize_any` (order-keeping [`Tree`]), and the two
-/// float oracles of the model, taken from the implementation for this text: `fmt` = (bits, printed token) of every double
-/// of the value, `parse` = (token, bits) for every maximal run of the bytes `0-9 + - . e E` in the text that serde_json
-/// reads, standing alone, as an f64.
-///   {"ty":"jsonlayer","lib":"gds"|"lef","val":<data-model JSON>}           the typed library value
-///   {"ty":"jsonlayer","lib":"any","val":<any JSON>,"wrap":n}                 a serde_json::Value (keys sorted), wrapped n times
-///   {"ty":"jsonlayer","lib":"text","hex":<bytes>}                            a given text (no `fmt`)
+// Layer 2 tie (coq/Serde/JsonTextCheck.v): the JSON text that `SerializationFormat::Json.to_string` writes for a value,
+// what `SerializationFormat::Json.from_str` (dedent + serde_json::from_str) and `SerializationFormat::Json.open`
+// (serde_json::from_reader on the saved file) read from it through `deserialize_any` (order-keeping [`Tree`]), and the two
+// float oracles of the model, taken from the implementation for this text: `fmt` = (bits, printed token) of every double
+// of the value, `parse` = (token, bits) for every maximal run of the bytes `0-9 + - . e E` in the text that serde_json
+// reads, standing alone, as an f64.
+//   {"ty":"jsonlayer","lib":"gds"|"lef","val":<data-model JSON>}           the typed library value
+//   {"ty":"jsonlayer","lib":"any","val":<any JSON>,"wrap":n}                 a serde_json::Value (keys sorted), wrapped n times
+//   {"ty":"jsonlayer","lib":"text","hex":<bytes>}                            a given text (no `fmt`)
 fn num_runs(text: &[u8]) -> Vec<Value> {
     let is_num = |b: u8| b.is_ascii_digit() || b == b'+' || b == b'-' || b == b'.' || b == b'e' || b == b'E';
     let mut seen = std::collections::BTreeSet::new();
